@@ -20,7 +20,7 @@ const chanCap = 8192
 // Concurrency is handed to Parameters.SetConcurrency for every party the builders create.
 var Concurrency = 4
 
-// ParamHook, when set, is applied to the parameters of every ECDSA keygen / re-sharing party the builders create
+// ParamHook, when set, is applied to the parameters of every party the builders create
 // (used to switch the optional-proof flags individually).
 var ParamHook func(p *tss.Parameters)
 
@@ -112,6 +112,9 @@ func ECDSASigning(seed int64, keys []ecdsakeygen.LocalPartySaveData, t int, msg 
 		params.SetConcurrency(Concurrency)
 		if o.Rand != nil {
 			params.SetRand(o.Rand(i))
+		}
+		if ParamHook != nil {
+			ParamHook(params)
 		}
 		end := make(chan *common.SignatureData, 16)
 		var fb []int
@@ -215,6 +218,9 @@ func EDDSAKeygen(seed int64, keys []*big.Int, t int) *World {
 	for i, pid := range pids {
 		n := newNode(fmt.Sprintf("P%d", i), "all", pid)
 		params := tss.NewParameters(tss.Edwards(), ctx, pid, len(pids), t)
+		if ParamHook != nil {
+			ParamHook(params)
+		}
 		end := make(chan *eddsakeygen.LocalPartySaveData, 16)
 		n.Party = eddsakeygen.NewLocalParty(params, n.Out, end)
 		n.DrainEnd = drain(end)
@@ -242,6 +248,9 @@ func EDDSASigning(seed int64, keys []eddsakeygen.LocalPartySaveData, t int, msg 
 		params := tss.NewParameters(tss.Edwards(), ctx, pid, len(pids), t)
 		if o.Rand != nil {
 			params.SetRand(o.Rand(i))
+		}
+		if ParamHook != nil {
+			ParamHook(params)
 		}
 		end := make(chan *common.SignatureData, 16)
 		var fb []int
@@ -278,6 +287,9 @@ func EDDSAResharing(seed int64, oldKeys []eddsakeygen.LocalPartySaveData, t int,
 			}
 			n := newNode(fmt.Sprintf("O%d", i), "old", pid)
 			params := tss.NewReSharingParameters(tss.Edwards(), octx, nctx, pid, oldN, t, len(newP), newT)
+			if ParamHook != nil {
+				ParamHook(params.Parameters)
+			}
 			end := make(chan *eddsakeygen.LocalPartySaveData, 16)
 			n.Party = eddsaresharing.NewLocalParty(params, key, n.Out, end)
 			n.DrainEnd = drain(end)
@@ -288,6 +300,9 @@ func EDDSAResharing(seed int64, oldKeys []eddsakeygen.LocalPartySaveData, t int,
 		for i, pid := range newP {
 			n := newNode(fmt.Sprintf("N%d", i), "new", pid)
 			params := tss.NewReSharingParameters(tss.Edwards(), octx, nctx, pid, oldN, t, len(newP), newT)
+			if ParamHook != nil {
+				ParamHook(params.Parameters)
+			}
 			save := eddsakeygen.NewLocalPartySaveData(len(newP))
 			end := make(chan *eddsakeygen.LocalPartySaveData, 16)
 			n.Party = eddsaresharing.NewLocalParty(params, save, n.Out, end)
